@@ -18,7 +18,7 @@ from sim.tape import Tape
 from . import c06_sub, microworld_cancel
 from .c04 import account
 from .common import await_site, base_evidence, bump, digest_of, pair_hash
-from .incremental import run_incremental
+from .incremental import REACHED_AWAIT, run_incremental
 
 PROP = "C06"
 STOP_KINDS = ("aclose", "abort", "none", "abort")
@@ -235,6 +235,8 @@ def evaluate(sim, scn, reqs, results, stops, status, knobs, stats=None):
                     "frozen_at_end_of_response": bool(stop is not None and stop.frozen_at_end),
                     # does any task still wait for it, or was the awaitable abandoned un-awaited?
                     "still_awaited": any(bool(getattr(e.fut, "_callbacks", None)) for e in still),
+                    # did the executor get as far as awaiting it (through with_abort_signal)?
+                    "reached_await": any(id(e.fut) in REACHED_AWAIT for e in still),
                     "awaited_by_background_work": _awaited_by_background(still[0], stop, rr),
                     "unconsumed_aborted_result": _unconsumed([stop], [rr]),
                     "reaction": stop.reaction if kind == "abort" else "-"},
@@ -308,6 +310,7 @@ def evaluate(sim, scn, reqs, results, stops, status, knobs, stats=None):
         vs.append(Violation(PROP, "orphan_task", {
             "coroutine": qn, "site": await_site(t), "stops": ",".join(kinds),
             "stream_announced": _stream_announced(t, results),
+            "created_after_cleanup_started": _late_stream(t, results),
             "abort_phase": ",".join(phases) or "-", "reaction": ",".join(reactions) or "-",
             "unconsumed_aborted_result": _unconsumed(stops, results),
             "result_kinds": ",".join(sorted({str(r_.kind) for r_ in results})),
@@ -384,6 +387,31 @@ def _awaited_by_background(ext, stop, rr=None):
         return "?"
 
 
+def _late_stream(task, results):
+    """For a leaked stream producer: was its queue created only after the final cleanup of its
+    request could start (True), before it (False), or unknown ("?")?  (probe for the fingerprint)"""
+    try:
+        q = task.get_coro().cr_frame.f_locals.get("self")
+        created = getattr(q, "_verif_created_poll", None)
+        owner = None
+        for cell in getattr(q._produce, "__closure__", None) or ():
+            try:
+                v = cell.cell_contents
+            except ValueError:
+                continue
+            ctx = getattr(v, "context_value", None)
+            if ctx is not None and hasattr(ctx, "idx"):
+                owner = ctx.idx
+        if created is None or owner is None or owner >= len(results):
+            return "?"
+        cp = results[owner].cleanup_poll
+        if cp is None:
+            return "?"
+        return created >= cp
+    except Exception:  # noqa: BLE001
+        return "?"
+
+
 def _stream_announced(task, results):
     """For a leaked stream producer: was its stream ever announced to the consumer?
     (introspective probe: only refines the fingerprint, never the verdict)"""
@@ -431,6 +459,9 @@ def _cause(rs, stop, rr):
     return "none"
 
 
+FOCUS_CYCLE = ("abortstream", "streamfail", "background", None, "earlyclose", "nullroot")
+
+
 def run_unit(seed=None, unit=None, tier="quick", stats=None):
     if unit is not None:
         world = unit.get("world", "W1")
@@ -451,8 +482,10 @@ def run_unit(seed=None, unit=None, tier="quick", stats=None):
     stop_kind = STOP_KINDS[ptape.draw(len(STOP_KINDS), "stop_kind")]
     incremental = ptape.draw(4, "incr") != 0
     focus = unit.get("focus") if unit is not None else (
-        "background" if seed[2] % 5 == 2 else "earlyclose" if seed[2] % 5 == 4
-        else "abortstream" if seed[2] % 5 == 0 else "streamfail" if seed[2] % 5 == 1 else None)
+        (FOCUS_CYCLE[seed[2] % len(FOCUS_CYCLE)]))
+    if focus == "nullroot":
+        stop_kind = "none"
+        incremental = True
     if focus == "streamfail":
         stop_kind = "none"
         incremental = True
@@ -498,6 +531,7 @@ def run_unit(seed=None, unit=None, tier="quick", stats=None):
         sim, reqs, results, status, knobs, al, stops = run_incremental(
             scn, st, stop_factory=factory, lenient=True,
             force_early=(True if focus in ("earlyclose", "streamfail")
+                         else r != 2 if focus == "nullroot"
                          else False if focus == "abortstream" and r != 1 else None),
             force_capacity=(1, 2)[r % 2] if focus == "abortstream" else None)
         bump(stats, "counts", "execs", len(reqs))
